@@ -18,6 +18,12 @@ N4  calls of functions / methods whose every definition in the analysed packages
     become positional (`f(a, y=b)` -> `f(a, b)` for `def f(x, y)`); rules then read arguments by
     position.
 
+N5  a private method (`_name`, defined once, no decorators, no early return, referenced exactly once
+    in the analysed packages) called as a whole statement `self._name(...)`, `x = self._name(...)`
+    or `return self._name(...)` from a method of the same class is inlined there (parameters
+    bound first, locals prefixed) and its definition dropped: "extract method" undone.  A helper
+    with early returns is inlined only where the call is itself in return position.
+
 Every rewrite is local, keeps evaluation order, and leaves line numbers of the surviving nodes
 untouched.  (Found necessary by the `--retvar` false-alarm probe of tools/refactor_twin.py.)
 """
@@ -237,3 +243,215 @@ def normalise(tree: ast.Module, sigs: dict | None = None) -> tuple[ast.Module, d
     t = _N1()
     tree = t.visit(tree)
     return tree, {"N1": t.count, "N2": t2.count, "N3": t3.count, "N4": n4}
+
+
+# ---------------------------------------------------------------------------------------------
+# N5: single-use private helper methods are inlined at their only call site (the inverse of "extract method")
+
+
+def _simple_params(fn: ast.FunctionDef) -> list[str] | None:
+    a = fn.args
+    if a.vararg or a.kwarg or a.posonlyargs or a.kwonlyargs:
+        return None
+    names = [x.arg for x in a.args]
+    if not names or names[0] != "self":
+        return None
+    return names[1:]
+
+
+def _eligible_helper(fn: ast.FunctionDef) -> bool:
+    if not fn.name.startswith("_") or fn.name.startswith("__") or fn.decorator_list or isinstance(fn, ast.AsyncFunctionDef):
+        return False
+    if _simple_params(fn) is None:
+        return False
+    for n in ast.walk(fn):
+        if isinstance(n, (ast.Yield, ast.YieldFrom, ast.Await, ast.Global, ast.Nonlocal, ast.Lambda)):
+            return False
+        if n is not fn and isinstance(n, (ast.FunctionDef, ast.AsyncFunctionDef, ast.ClassDef)):
+            return False
+        if isinstance(n, (ast.ListComp, ast.SetComp, ast.DictComp, ast.GeneratorExp)):
+            return False  # comprehension scopes: renaming would have to respect them
+    return True
+
+
+def _always_exits(stmts: list[ast.stmt]) -> bool:
+    """the statement list cannot fall off its end (syntactic, conservative)"""
+    if not stmts:
+        return False
+    last = stmts[-1]
+    if isinstance(last, (ast.Return, ast.Raise)):
+        return True
+    if isinstance(last, (ast.With, ast.AsyncWith)):
+        return _always_exits(last.body)
+    if isinstance(last, ast.If):
+        return bool(last.orelse) and _always_exits(last.body) and _always_exits(last.orelse)
+    if isinstance(last, ast.Try):
+        if last.finalbody and _always_exits(last.finalbody):
+            return True
+        return (_always_exits(last.orelse) if last.orelse else _always_exits(last.body)) and all(_always_exits(h.body) for h in last.handlers)
+    if isinstance(last, ast.While) and isinstance(last.test, ast.Constant) and last.test.value is True:
+        return not any(isinstance(x, ast.Break) for x in ast.walk(last))
+    return False
+
+
+def _has_early_return(fn: ast.FunctionDef) -> bool:
+    return any(r is not fn.body[-1] for r in ast.walk(fn) if isinstance(r, ast.Return))
+
+
+class _Rename(ast.NodeTransformer):
+    def __init__(self, mapping: dict[str, str]):
+        self.mapping = mapping
+
+    def visit_Name(self, node):
+        if node.id in self.mapping:
+            node.id = self.mapping[node.id]
+        return node
+
+
+def inline_single_use_helpers(trees: list[ast.Module], leaf_first: bool = True) -> int:
+    """rewrites the trees in place; returns the number of helpers inlined"""
+    import copy
+
+    uses: dict[str, int] = {}
+    defs: dict[str, list[str]] = {}  # method name -> classes defining it ("" for plain functions)
+    bases: dict[str, set[str]] = {}
+    for t in trees:
+        for n in ast.walk(t):
+            if isinstance(n, ast.Attribute):
+                uses[n.attr] = uses.get(n.attr, 0) + 1
+            elif isinstance(n, ast.ClassDef):
+                bases.setdefault(n.name, set()).update(b.id if isinstance(b, ast.Name) else b.attr if isinstance(b, ast.Attribute) else (b.value.id if isinstance(b, ast.Subscript) and isinstance(b.value, ast.Name) else "?") for b in n.bases)
+                for f in n.body:
+                    if isinstance(f, (ast.FunctionDef, ast.AsyncFunctionDef)):
+                        defs.setdefault(f.name, []).append(n.name)
+            elif isinstance(n, ast.Constant) and isinstance(n.value, str) and n.value.isidentifier():
+                uses[n.value] = uses.get(n.value, 0) + 1  # getattr(self, "_name") style references
+    for t in trees:
+        for n in t.body:
+            if isinstance(n, (ast.FunctionDef, ast.AsyncFunctionDef)):
+                defs.setdefault(n.name, []).append("")
+
+    def ancestors(c: str) -> set[str]:
+        out: set[str] = set()
+        stack = [c]
+        while stack:
+            x = stack.pop()
+            for b in bases.get(x, ()):
+                if b not in out:
+                    out.add(b)
+                    stack.append(b)
+        return out
+
+    def unrelated(classes: list[str]) -> bool:
+        if "" in classes or len(set(classes)) != len(classes):
+            return False
+        anc = {c: ancestors(c) for c in classes}
+        return not any(a != b and (a in anc[b] or b in anc[a]) for a in classes for b in classes)
+
+    def own_uses(cls: ast.ClassDef, name: str) -> int:
+        return sum(1 for n in ast.walk(cls) if isinstance(n, ast.Attribute) and n.attr == name)
+
+    count = 0
+    for t in trees:
+        for cls in [n for n in ast.walk(t) if isinstance(n, ast.ClassDef)]:
+            # a helper is private to ONE class: defined there (other definitions only in unrelated classes), referenced once,
+            # inside that class, and nowhere else in the analysed packages
+            helpers = {f.name: f for f in cls.body if isinstance(f, ast.FunctionDef) and unrelated(defs.get(f.name, [])) and own_uses(cls, f.name) == 1 and uses.get(f.name, 0) == len(defs.get(f.name, [])) and _eligible_helper(f)}
+            if not helpers:
+                continue
+            # innermost first: a helper that itself still calls a foldable helper waits for the next pass
+            if leaf_first:
+                helpers = {k: f for k, f in helpers.items() if not any(isinstance(n, ast.Attribute) and n.attr in helpers and n.attr != k for n in ast.walk(f))}
+            done: set[str] = set()
+            for m in [f for f in cls.body if isinstance(f, (ast.FunctionDef, ast.AsyncFunctionDef))]:
+                if m.name in helpers or not m.args.args or m.args.args[0].arg != "self":
+                    continue
+                for holder in ast.walk(m):
+                    for fld in ("body", "orelse", "finalbody"):
+                        seq = getattr(holder, fld, None)
+                        if not (isinstance(seq, list) and seq and isinstance(seq[0], ast.stmt)):
+                            continue
+                        out: list[ast.stmt] = []
+                        for st in seq:
+                            call = None
+                            if isinstance(st, ast.Expr) and isinstance(st.value, ast.Call):
+                                call = st.value
+                            elif isinstance(st, ast.Assign) and isinstance(st.value, ast.Call):
+                                call = st.value
+                            elif isinstance(st, ast.Return) and isinstance(st.value, ast.Call):
+                                call = st.value
+                            h = None
+                            if call is not None and isinstance(call.func, ast.Attribute) and isinstance(call.func.value, ast.Name) and call.func.value.id == "self" and call.func.attr in helpers and call.func.attr not in done:
+                                h = helpers[call.func.attr]
+                            if h is None or any(isinstance(a, ast.Starred) for a in call.args) or any(k.arg is None for k in call.keywords):
+                                out.append(st)
+                                continue
+                            early = _has_early_return(h)
+                            if early and not isinstance(st, ast.Return):
+                                out.append(st)  # early returns survive only when the call itself is in return position
+                                continue
+                            params = _simple_params(h) or []
+                            if len(call.args) > len(params):
+                                out.append(st)
+                                continue
+                            prefix = f"_{h.name.strip('_')}__"
+                            stored = {n.id for n in ast.walk(h) if isinstance(n, ast.Name) and isinstance(n.ctx, (ast.Store, ast.Del))}
+                            local_names = set(params) | stored
+                            caller_names = {n.id for n in ast.walk(m) if isinstance(n, ast.Name)} | {x.arg for x in m.args.args + m.args.kwonlyargs}
+                            # a helper local keeps its name unless the caller already uses that name
+                            mapping = {n: (prefix + n if n in caller_names else n) for n in local_names}
+                            binds: list[ast.stmt] = []
+                            given = {params[i]: a for i, a in enumerate(call.args)}
+                            given.update({k.arg: k.value for k in call.keywords})
+                            defaults = dict(zip(params[len(params) - len(h.args.defaults):], h.args.defaults))
+                            okb = True
+                            tail_position = isinstance(st, ast.Return)
+                            for p in params:
+                                v = given.get(p, defaults.get(p))
+                                if v is None:
+                                    okb = False
+                                    break
+                                if isinstance(v, ast.Name) and (p not in stored or tail_position) and p in given:
+                                    # a plain name is passed: the parameter IS that name (rebinding it inside the helper is only
+                                    # safe when nothing of the caller runs afterwards)
+                                    mapping[p] = v.id
+                                    continue
+                                b = ast.Assign(targets=[ast.Name(id=mapping[p], ctx=ast.Store())], value=copy.deepcopy(v), type_comment=None)
+                                ast.copy_location(b, st)
+                                binds.append(b)
+                            if not okb:
+                                out.append(st)
+                                continue
+                            body = [copy.deepcopy(s) for s in h.body]
+                            if body and isinstance(body[0], ast.Expr) and isinstance(body[0].value, ast.Constant) and isinstance(body[0].value.value, str):
+                                body = body[1:]
+                            body = [_Rename(mapping).visit(s) for s in body]
+                            tail: list[ast.stmt] = []
+                            ret_val = None
+                            if early:
+                                # tail call: the helper's returns ARE the caller's returns
+                                if not _always_exits(body):
+                                    body.append(ast.copy_location(ast.Return(value=ast.Constant(value=None)), st))
+                                out.extend(binds + body)
+                                done.add(h.name)
+                                count += 1
+                                continue
+                            if body and isinstance(body[-1], ast.Return):
+                                ret_val = body[-1].value
+                                body = body[:-1]
+                            if isinstance(st, ast.Expr):
+                                if ret_val is not None and not isinstance(ret_val, (ast.Name, ast.Constant)):
+                                    tail = [ast.copy_location(ast.Expr(value=ret_val), st)]
+                            elif isinstance(st, ast.Assign):
+                                a_ = ast.Assign(targets=st.targets, value=ret_val if ret_val is not None else ast.Constant(value=None), type_comment=None)
+                                tail = [ast.copy_location(a_, st)]
+                            else:
+                                tail = [ast.copy_location(ast.Return(value=ret_val), st)]
+                            out.extend(binds + body + tail)
+                            done.add(h.name)
+                            count += 1
+                        setattr(holder, fld, out)
+            if done:
+                cls.body = [f for f in cls.body if not (isinstance(f, ast.FunctionDef) and f.name in done)]
+        ast.fix_missing_locations(t)
+    return count
